@@ -1,4 +1,5 @@
 import EoVerif.Model.Basic
+import EoVerif.Model.Ansi
 /-!
   The target vocabulary of the source translator (`harness/py2lean.py`).
 
@@ -77,6 +78,30 @@ def bitAnd {α} (a b : Int) (k : Int → M α) : M α :=
   if 0 ≤ a ∧ 0 ≤ b then k (Int.ofNat (a.toNat &&& b.toNat)) else .error .Other
 def bitXor {α} (a b : Int) (k : Int → M α) : M α :=
   if 0 ≤ a ∧ 0 ≤ b then k (Int.ofNat (a.toNat ^^^ b.toNat)) else .error .Other
+
+/-- `len(s)` of a `str` (code points) -/
+def lenS (s : List Nat) : Int := (s.length : Int)
+
+/-- `bytearray(s, 'windows-1252', 'replace')` — the codec is the table model `Ansi.encode`, validated against CPython for all
+    1,114,112 code points on every run of the writer checks. -/
+def encodeAnsi (s : List Nat) : List Int := (Ansi.encode s).map Int.ofNat
+
+/-- `xs.append(v)` on a `bytearray` -/
+def append {α} (xs : List Int) (v : Int) (k : List Int → M α) : M α :=
+  if 0 ≤ v ∧ v < 256 then k (xs ++ [v]) else .error .ValueError
+
+/-- slice bound `k` of `xs[:k]` / `xs[k:]` clipped the way Python clips it -/
+def clip (xs : List Int) (k : Int) : Nat :=
+  if k < 0 then (k + len xs).toNat else min k.toNat xs.length
+
+/-- `xs[:k]` -/
+def slicePrefix (xs : List Int) (k : Int) : List Int := xs.take (clip xs k)
+/-- `xs[k:]` -/
+def sliceSuffix (xs : List Int) (k : Int) : List Int := xs.drop (clip xs k)
+/-- `xs[:k] = v` on a `bytearray` (the replaced part and `v` need not have the same length) -/
+def setPrefix (xs : List Int) (k : Int) (v : List Int) : List Int := v ++ xs.drop (clip xs k)
+/-- `xs[k:] = v` -/
+def setSuffix (xs : List Int) (k : Int) (v : List Int) : List Int := xs.take (clip xs k) ++ v
 
 /-- `for i in range(n): body` over the variables the body assigns (`σ`); the `Bool` is "a `break` was executed". -/
 def forRangeGo {σ} (body : Int → σ → M (σ × Bool)) : Nat → Int → σ → M σ
